@@ -36,7 +36,7 @@ TRANSACT = "Transact-SQL"
 #: SQL dialect name: PL/SQL used by Oracle
 PL = "PL/SQL"
 
-_INT_TYPES = set(["bigint", "int", "smallint", "tinyint"])
+_INT_TYPES = set(["bigint", "int", "integer", "smallint", "tinyint"])
 
 _log = logging.getLogger("cutplace")
 
